@@ -539,15 +539,18 @@ func (rn *runner) retire(poisoned bool) {
 		res := rn.results[hist[0]]
 		d := rn.batch[hist[0]]
 		res.Req = rn.reqs[hist[0]]
+		res.PrefixReqs = rn.prefReqs
 		res.Viol = append(res.Viol, kernel.Violation{Oracle: "probe-write", Signature: Signature("probe-write", d, res.Req, ""), Detail: "after " + res.Desc + ": " + err.Error()})
 		return
 	}
 	rn.counters["write_probe_bisections"]++
 	for _, i := range hist {
-		y, e := newInst(rn.u.Side, rn.u.Class, rn.u.RealNodes)
-		if e != nil {
+		// the same state again: state class + prefix (build() also re-checks the canonical key)
+		if err := rn.build(); err != nil || rn.cur == nil {
 			continue
 		}
+		y := rn.cur
+		rn.cur, rn.history = nil, nil
 		d := rn.batch[i]
 		r, _ := Build(d, y.facts())
 		_, _, p, _, _ := rn.exec(y, d, r, y.state(), "bisect "+d.String())
@@ -557,6 +560,7 @@ func (rn *runner) retire(poisoned bool) {
 		if !p {
 			if ok, err, _ := y.writeProbe(); ok && err != nil {
 				rn.results[i].Req = r
+				rn.results[i].PrefixReqs = rn.prefReqs
 				rn.results[i].Viol = append(rn.results[i].Viol, kernel.Violation{Oracle: "probe-write", Signature: Signature("probe-write", d, r, ""), Detail: "after " + d.String() + ": " + err.Error()})
 			}
 		}
